@@ -19,7 +19,7 @@ CHECKS = {
    text=("Theorems (props/C15.v, closed): for ALL trees (8 node kinds, any depth/arity): == is reflexive, symmetric, transitive; == implies equal hashes for every host hash "
          "function (every PYTHONHASHSEED), equal width and equal value under every valuation/memory/operator interpretation; copy() and visit(identity) return the same tree; "
          "visit(cb) preserves width and value whenever cb does; replace_expr with any map whose keys and images have equal width and value preserves width and value (substitution as congruence). "
-         "canonize preserves well-formedness, width and value on well-formed trees of fragment 1 (theorem), and is refuted without the one-width condition (the width of an operator node is that of its first operand). Model tied to expression.py by exact-output correspondence (~48k cases quick)."),
+         "canonize preserves well-formedness, width and value on well-formed trees (the C05 predicate, concatenations included: sorting the slots of a concatenation is a permutation of an OR of fields) (theorem), and is refuted without the one-width condition (the width of an operator node is that of its first operand). Model tied to expression.py by exact-output correspondence (~48k cases quick)."),
    note=TB + "Modelled, not verified: Expr.v (hand transcription of expression.py: __eq__/__hash__/visit/copy/replace_expr/canonize/key_expr). "
         "Object identity ('shares no mutable node') is outside Gallina: checked on the implementation by id()-disjointness. ExprAff's slice-destination constructor sugar is outside the model.",
    design='4/C15'),
@@ -36,13 +36,13 @@ CHECKS = {
          "the result is well formed, has the same width and the same value under every valuation of identifiers, every memory and every operator interpretation — through flattening, canonical sorting, constant folding via the modint classes, A op 0, singleton, "
          "duplicate/cancelling-pair removal, all minus rules, the shift rules (constant folds, count 0, (X & m) >> c), the == rules (constant fold, (X | m) == 0), the parity fold, the concatenation rules (merge_sliceto_slice: classification, masking and merging of adjacent constants, merging of adjacent slices of one source, sorting by start — ComposeProofs.v proves that the OR of the fields, the set of starts, the extent and the per-bit occupancy are preserved; the single-slot rule; a slice of a concatenation), the conditional rules, the four slice rules, the bottom-up visit and the fixpoint loop. NOT yet proved: the rotate rules; termination is by explicit fuel (OutOfFuel never observed). "
          "Model Simp.v mirrors _expr_simp rule for rule; tie: exact result trees on rule-targeted families (one per rule and side condition, permuted, embedded) and typed random trees; on any disagreement width and value of input vs output are evaluated "
-         "under all 2^16 valuations of two 8-bit variables or boundary cross-products."),
+         "under all 2^16 valuations of two 8-bit variables or boundary cross-products. Independently of the model, every result that differs from its input is audited: width, and value under 6 (quick) / 16 (thorough) valuations, in one batch through the extracted Expr.eval."),
    note=TB + "Modelled, not verified: Simp.v is a hand transcription of expression_helper.py (tied by exact-tree correspondence on every run). Outside fragments 1-5 the property is decided by the tie + search, below proof strength.",
    design='4/C05', category='other'),
  'C13': dict(
    technique='Coq theorems on the simplifier model (idempotence on well-formed trees: the result is a deep normal form and a second pass returns the identical tree; root-level fixpoint of the rewriting step for all trees, sort is a permutation, order-independence of the value, fuel independence) + exact-tree correspondence under several PYTHONHASHSEED values; idempotence and order-insensitivity evaluated on groups of permuted/re-associated spellings',
    text=("The model (a pure function: no hash-order input) is compared with expr_simp under PYTHONHASHSEED 0,1,2 (quick) / 0..15 (thorough) on groups of expressions differing only by order/nesting of "
-         "+ * ^ & | operands (rule families, random trees, multisets of atoms, deep twins that differ only far down), each simplified once and twice. Theorems (props/C13.v, closed): for ALL trees every result of the simplifier is a fixpoint of its rewriting step at the root (one more _expr_simp returns an == expression); on well-formed concatenation-free trees (fragments 1-4 of C05, identifier predicate determining is_term) the result is a DEEP normal form (every node is returned unchanged by the rewriting step) and simplifying it again returns the IDENTICAL tree whatever the fuel — by induction over fuel, the traversal and the loop, using that == is Leibniz equality on well-formed trees; "
+         "+ * ^ & | operands (rule families, random trees, multisets of atoms, deep twins that differ only far down), each simplified once and twice. Theorems (props/C13.v, closed): for ALL trees every result of the simplifier is a fixpoint of its rewriting step at the root (one more _expr_simp returns an == expression); on well-formed trees (fragments 1-5 of C05, concatenations included, identifier predicate determining is_term) the result is a DEEP normal form (every node is returned unchanged by the rewriting step) and simplifying it again returns the IDENTICAL tree whatever the fuel — by induction over fuel, the traversal and the loop, using that == is Leibniz equality on well-formed trees; "
          "the canonical operand order is a permutation of the input; on well-formed trees operand order does not change the value of the result; successful runs agree whatever their fuel. "
          "NOT proved: idempotence outside the well-formed fragment (concatenations, rotates, ==, parity, ill-typed trees), syntactic identity of the results for permuted/re-associated operands, hash-seed independence (implementation facts): decided by the runs."),
    note=TB + "Cross-process behaviour (hash seeds) is a runtime fact outside Gallina: exercised by running the implementation under each seed. dump_mem() ordering (ExprMem.__lt__ compares id()) is not covered.",
@@ -50,10 +50,10 @@ CHECKS = {
  'C06': dict(
    technique='Coq proof by induction over fuel (through the simplifier theorem of C05) that the model of eval_expr is sound substitution on register-only states and fragment-1 expressions; Gallina model of eval_abs.eval_expr (all seven node kinds) tied by exact-tree correspondence',
    text=("Model EvalAbs.v mirrors eval_expr / eval_ExprOp+deal_op / eval_ExprCond / eval_ExprSlice / eval_ExprCompose / eval_ExprMem. Tie: exact result trees on (state, expression) pairs mixing constant, "
-         "symbolic and absent bindings, all operators at arity 2..5 with constant operands, conditions/concatenations whose parts become constants. "
+         "symbolic and absent bindings, all operators at arity 2..5 with constant operands, conditions/concatenations whose parts become constants; independently of the model, every result is audited against the property itself (width; value of the result = value of the argument under the substituted valuation, 4/12 valuations per case, states without bound memory cells). "
          "Theorem (props/C06.v, closed): for register-only states whose bindings map non-terminal identifiers to well-formed expressions of their width, every expression of fragments 1-4 (slices, shifts, == and parity included, shift constants evaluated through deal_op's saturating count) conforming to a name signature and every result of eval_expr: the result is well formed, "
          "has the argument's width, and in EVERY concrete state, memory and operator interpretation evaluates to the argument's value in the state where each bound identifier takes its binding's value (terminal identifiers untouched, memory read at the substituted address). "
-         "Not proved: states with written memory cells, concatenations (the eval_expr theorem is stated for the concatenation-free fragment, ac = false), rotates (decided by the tie)."),
+         "Not proved: states with written memory cells, concatenations (the eval_expr theorem is stated for the concatenation-free fragment, ac = false: eval_ExprCompose re-evaluates an already evaluated condition, which the implementation guards with is_eval object marks the model does not have — model and code agree only when binding values do not mention bound identifiers, as in the library's own machine and in the generators), rotates (decided by the tie)."),
    note=TB + "Modelled, not verified: EvalAbs.v. States follow the init_* discipline (bindings over free symbols, already evaluated); is_eval/is_term flags and eval_cache are outside this model (C12).",
    design='4/C06', category='other'),
  'C07': dict(
@@ -101,8 +101,8 @@ CHECKS = {
    technique='Coq theorems for the arithmetic/logic group (mirror of the lifter tied to the regenerated IR by syntactic identity, kernel-checked by reflection) and for the condition-code families (semantic check of the regenerated IR under all flag valuations, lifted to all states) + evaluation of the whole integer core with the extracted Coq denotation against an SDM reference',
    text=("Theorems (props/C04.v, closed): (tie) every add/adc/sub/sbb/cmp/and/or/xor/test form (>2000) with operands of equal width and every inc/dec/neg form (>150) of the lifted dump regenerated from /repo — every operand shape and width — is, node for node, "
          "the mirror Sem.v applied to its own operands; (meaning) for ALL operand expressions of equal width n in {8,16,32}, all valuations of registers/flags/memory and all operator interpretations: the value is the n-bit sum/difference/bitwise result "
-         "(carry-in for adc/sbb), cf is the carry/borrow out, of the signed overflow, zf/sf/pf those of the result; inc/dec/neg likewise (cf of neg = operand <> 0); an assignment to a sub-register replaces exactly its bits of the register (write-back through ExprAff's slice rewriting, bit-level theorem); the XOR-based carry identities are proved for every width and value. Condition codes: EVERY setcc (>400), cmovcc (>1200) and jcc (>50) form of the regenerated dump — all sixteen conditions in each family — realises in every state the SDM condition its mnemonic names (byte 1/0; destination takes the other operand or keeps its value; eip = other branch or next address), decided by evaluation under the 32 flag valuations and lifted to all states, memories and operator interpretations by a coincidence theorem for flag-only expressions; after a cmp the sixteen conditions are proved to be the unsigned/signed order relations. Data movement (mov xchg movzx movsx lea not push pop nop clc stc cmc cld std; >1100 regenerated forms): each lifted list is, node for node, the mirror SemMov.v applied to the operand expressions the lifter was called with (dumped beside the list by harness/impl_liftargs.py), except the shapes the mirror declines (segment-register push/pop; movzx/movsx/lea between equal or mismatched widths under the 66 prefix: <=120 forms, left to the evaluation); meaning theorems for all operands and states: movzx = source value, movsx = sign extension (bit level), not = one's complement, push/pop move esp by the operand size mod 2^32, pop to memory addressed through esp uses the incremented esp, cmc complements cf. af is refuted (known finding). "
-         "The rest of the integer core (shifts, rotates, double shifts, mul/div, bit ops, cbw/cwd family, lahf/sahf, xadd/cmpxchg, leave/enter/pusha, string, other control transfers) is NOT a theorem: "
+         "(carry-in for adc/sbb), cf is the carry/borrow out, of the signed overflow, zf/sf/pf those of the result; inc/dec/neg likewise (cf of neg = operand <> 0); an assignment to a sub-register replaces exactly its bits of the register (write-back through ExprAff's slice rewriting, bit-level theorem); the XOR-based carry identities are proved for every width and value. Condition codes: EVERY setcc (>400), cmovcc (>1200) and jcc (>50) form of the regenerated dump — all sixteen conditions in each family — realises in every state the SDM condition its mnemonic names (byte 1/0; destination takes the other operand or keeps its value; eip = other branch or next address), decided by evaluation under the 32 flag valuations and lifted to all states, memories and operator interpretations by a coincidence theorem for flag-only expressions; after a cmp the sixteen conditions are proved to be the unsigned/signed order relations. Data movement (mov xchg movzx movsx lea not push pop nop clc stc cmc cld std; >1100 regenerated forms): each lifted list is, node for node, the mirror SemMov.v applied to the operand expressions the lifter was called with (dumped beside the list by harness/impl_liftargs.py), except the shapes the mirror declines (segment-register push/pop; movzx/movsx/lea between equal or mismatched widths under the 66 prefix: <=120 forms, left to the evaluation); meaning theorems for all operands and states: movzx = source value, movsx = sign extension (bit level), not = one's complement, push/pop move esp by the operand size mod 2^32, pop to memory addressed through esp uses the incremented esp, cmc complements cf. Shifts and rotates, VALUE only (sal=shl shr sar rol ror; >500 regenerated forms): the destination is assigned the mirror SemShift.shift_val of the dumped operands, and for all operands and states that value is the processor's (x*2^c mod 2^n, x/2^c, arithmetic shift of the signed reading, bit rotation; count masked to five bits, counts >= n included); the flags of this group are not theorems. Near control transfers with 32-bit operand size (call ret leave jmp) and string moves (movs stos lods; every operand and address size): each regenerated list is the mirror (SemCtl.v / SemStr.v) of the dumped operands and next-instruction address; stack pointer = esp - 4 / esp + 4 + imm / ebp + 4 modulo 2^32, string pointers step by the element size, down when df is set. af is refuted (known finding). "
+         "The rest of the integer core (flags of shifts and rotates, rcl/rcr, double shifts, mul/div, bit ops, cbw/cwd family, lahf/sahf, xadd/cmpxchg, enter/pusha, scas/cmps and rep prefixes, far and 16-bit control transfers) is NOT a theorem: "
          "the regenerated IR of every catalogue form (+ an addressing-mode sweep over every ModRM/SIB byte) is evaluated by the extracted Expr.eval on 6 (quick) / 40 (thorough) boundary x random states and compared with harness/x86ref.py "
          "(registers, defined flags, written bytes, eip). Deviations on the unchanged tree are listed per (mnemonic, operand size, output, shift-count class)."),
    note=TB + "Sem.v is a hand mirror of ia32_sem.py's flag helpers and 12 semantic functions; its tie to the code is the kernel-checked identity with the regenerated IR (SemFacts.v), re-proved on every run. SemCC.cc_holds is the SDM condition table (vol. 2 app. B.1) written in Gallina — a specification, cross-checked by the theorem relating it to the order relations after cmp; the setcc/cmovcc/jcc checkers run on the regenerated IR itself (SemCCFacts.v), no mirror. x86ref.py is a hand-written specification, reviewed against the SDM and validated against the real processor on every run (harness/cpucheck.py: 262 register forms, 0 disagreements on >100k executed states; testing, not proof).",
